@@ -146,7 +146,7 @@ def run_both(ctx, warun, src, tag):
         wst, wout = "timeout", ""
     env = dict(GOENV, GOFLAGS="-mod=mod", GO111MODULE="off", GOCACHE=os.environ.get("GOCACHE", os.path.expanduser("~/.cache/go-build")))
     try:
-        p = subprocess.run(["go", "run", "main.go"], cwd=d, stdout=subprocess.PIPE, stderr=subprocess.PIPE, text=True, timeout=300, env=env)
+        p = vlib.go_run(d, env, 300)
         gst, gout = ("ok" if p.returncode == 0 else "err:%d" % p.returncode), (p.stderr if p.returncode == 0 else p.stderr)
         # println writes to stderr in Go
     except subprocess.TimeoutExpired:
